@@ -55,8 +55,12 @@ RECURSIVE ValSum(_)
 ValSum(vals) == IF Len(vals) = 1 THEN vals[1] ELSE AddFrac(vals[1], ValSum(Tail(vals)))
 \* round(T * v): either neighbour when exactly halfway
 TickChoices(T, vals) ==
-  LET s == ValSum(vals)  x == T * s[1]  lo == x \div s[2]  r == x % s[2] IN
-  IF 2 * r < s[2] THEN {lo} ELSE IF 2 * r > s[2] THEN {lo + 1} ELSE {lo, lo + 1}
+  LET s == ValSum(vals)
+      g == Gcd(T, s[2])   t == T \div g   den == s[2] \div g       \* T * n / d = t * n / den, kept inside 32 bits:
+      q == s[1] \div den   r0 == s[1] % den                      \* t * n = t * q * den + t * r0
+      lo == t * q + (t * r0) \div den
+      r == (t * r0) % den
+  IN IF 2 * r < den THEN {lo} ELSE IF 2 * r > den THEN {lo + 1} ELSE {lo, lo + 1}
 HalfSet(T, d) == {i \in 1..Len(d) : Cardinality(TickChoices(T, d[i].vals)) = 2}
 Lo(T, x) == CHOOSE t \in TickChoices(T, x.vals) : \A u \in TickChoices(T, x.vals) : t <= u
 \* ch : HalfSet -> {0, 1} picks the neighbour for the halfway instances
